@@ -39,6 +39,7 @@ let form_of = function
   | "any" -> C09_AnyTrue | "all" -> C09_AllTrue | "anyf" -> C09_AnyFalse | "allf" -> C09_AllFalse
   | "hmax" -> C09_HMax | "hmin" -> C09_HMin | "lane" -> C09_LaneAll | "bcast" -> C09_Bcast | "icast" -> C09_ImplCast
   | "mor" -> C09_MaskOr | "mand" -> C09_MaskAnd
+  | "copy" | "conv" -> C09_Copy | "swap" -> C09_Swap | "cond2" -> C09_Cond | "vsi" | "vsu" -> C09_VS | "morself" -> C09_MaskOrSelf | "mandself" -> C09_MaskAndSelf
   | "vvself" -> C09_VVSelf | "avvself" -> C09_AssignVVSelf | "condself" -> C09_CondSelf | "condsame" -> C09_CondSame | "condmask" -> C09_CondMask
   | s ->
       (* aliasing forms with the aliased lane: avsk:<k> avsl:<k> vsk:<k> vsl:<k> svk:<k> *)
@@ -46,13 +47,15 @@ let form_of = function
        | [("avsk" | "avsl"); k] -> C09_AssignVSLane (nat_of_int (int_of_string k))
        | [("vsk" | "vsl"); k] -> C09_VSLane (nat_of_int (int_of_string k))
        | ["svk"; k] -> C09_SVLane (nat_of_int (int_of_string k))
+       | ["bcastk"; k] -> C09_BcastLane (nat_of_int (int_of_string k))
        | _ -> failwith ("form " ^ s))
 
-let res_vec = function C09_Ok x -> String.concat " " (List.map vec x) | C09_FMatrixError _ -> "EXC FMatrixError"
-let res_vec1 = function C09_Ok x -> vec x | C09_FMatrixError _ -> "EXC FMatrixError"
-let res_mat = function C09_Ok m -> String.concat " " (List.map (fun r -> String.concat " " (List.map vec r)) m)
+let dash s = if s = "" then "-" else s
+let res_vec = function C09_Ok x -> dash (String.concat " " (List.map vec x)) | C09_FMatrixError _ -> "EXC FMatrixError"
+let res_vec1 = function C09_Ok x -> dash (vec x) | C09_FMatrixError _ -> "EXC FMatrixError"
+let res_mat = function C09_Ok m -> dash (String.concat " " (List.map (fun r -> String.concat " " (List.map vec r)) m))
                      | C09_FMatrixError _ -> "EXC FMatrixError"
-let res_mat1 = function C09_Ok m -> String.concat " " (List.map vec m) | C09_FMatrixError _ -> "EXC FMatrixError"
+let res_mat1 = function C09_Ok m -> dash (String.concat " " (List.map vec m)) | C09_FMatrixError _ -> "EXC FMatrixError"
 
 (* type descriptor tokens: simd <S> <A> ... scalar <name> *)
 let scalar_ty = function
@@ -60,6 +63,8 @@ let scalar_ty = function
   | "float" -> C09_TScalar (nat_of_int 2, true, true) | "double" -> C09_TScalar (nat_of_int 3, true, true)
   | "int" -> C09_TScalar (nat_of_int 4, false, true) | "unsigned" -> C09_TScalar (nat_of_int 5, false, true)
   | "short" -> C09_TScalar (nat_of_int 6, false, true) | "char" -> C09_TScalar (nat_of_int 7, false, true)
+  | "cdouble" -> C09_TScalar (nat_of_int 8, true, true) | "ulong" -> C09_TScalar (nat_of_int 9, false, true) | "llong" -> C09_TScalar (nat_of_int 10, false, true)
+  | "ushort" -> C09_TScalar (nat_of_int 11, false, true) | "uchar" -> C09_TScalar (nat_of_int 12, false, true) | "schar" -> C09_TScalar (nat_of_int 13, false, true)
   | s -> failwith ("scalar type " ^ s)
 let rec parse_ty (t : string array) (i : int) : c09_ty =
   match t.(i) with
@@ -122,7 +127,7 @@ let () =
              | "mv" ->
                  let x = List.init n (fun _ -> List.init s (fun _ -> next ())) in
                  let r = c09_v_mv fadd fmul 0.0 w a x in
-                 String.concat " " (List.map vec r) ^ " | " ^ lanes_of (fun l -> vec (c09_s_mv fadd fmul 0.0 (lm l) (c09_lane_vec 0.0 (nat_of_int l) x)))
+                 dash (String.concat " " (List.map vec r)) ^ " | " ^ lanes_of (fun l -> dash (vec (c09_s_mv fadd fmul 0.0 (lm l) (c09_lane_vec 0.0 (nat_of_int l) x))))
              | "prods" ->
                  (* mtv(b), umv(b, y=b), mmv(b, y=b), usmv(0.5, b, y=b), b*b *)
                  let x = List.init n (fun _ -> List.init s (fun _ -> next ())) in
